@@ -68,10 +68,10 @@ def wfKids : Kids → Bool
 end
 
 /-- a well-formed tree of the property: the root has at least two children, every label is legal in
-    all three formats, node names are pairwise different -/
+    all three formats, tip names are pairwise different (inner names may repeat) -/
 def WF13 (t : T) : Bool :=
   t.kids.length ≥ 2 && t.d.comments.isEmpty && (t.name == "" || innerLabelOK t.name) &&
-  wfKids t.kids && !hasDup ((allNames t).filter (· != ""))
+  wfKids t.kids && !hasDup t.tipNames
 
 /-- same tip set (the Nexus format has one taxa block for all its trees) -/
 def sameTaxa : List T → Bool
@@ -176,17 +176,15 @@ def ntaxOf : List Nex.Tok → Option Int
   | .kw .ntax _ :: .equal :: .numeric s :: _ => some (Nex.intVal s)
   | _ :: r => ntaxOf r
 
-def dedup : List String → List String
-  | [] => []
-  | a :: r => if r.contains a then dedup r else a :: dedup r
+/-- same members -/
+def sameSet (a b : List String) : Bool := a.all b.contains && b.all a.contains
 
 /-- the taxa block written for a list of trees names exactly the tips of all the trees, once each,
     and NTAX is their number (labels legal, so that each is one token) -/
 def taxaBlockOK (ts : List T) (text : Txt) : Bool :=
   let toks := Nex.scan text
-  let want := sortStr (dedup (ts.flatMap T.tipNames))
   match taxlabelsOf toks, ntaxOf toks with
-  | some labs, some n => sortStr labs == want && n == (want.length : Int)
+  | some labs, some n => !hasDup labs && sameSet labs (ts.flatMap T.tipNames) && n == (labs.length : Int)
   | _, _ => false
 
 /-- The Newick text of a tree (with its final ';') goes through the Nexus lexer unchanged: it is cut
@@ -252,11 +250,28 @@ def nexusTrStateOK (ts : List T) : Bool :=
 /-- a non-empty string of decimal digits (what the translate table uses as keys) -/
 def isNumeral (s : String) : Bool := s != "" && s.toList.all Char.isDigit
 
-/-- node names for the translate table: pairwise different, and a name that is not a tip name of the
-    tree is not a decimal numeral (it would be taken for a key of the table) -/
-def namesOK (t : T) : Bool :=
-  !hasDup ((allNames t).filter (· != "")) &&
+/-- the non-empty node names of the tree (tips and inner nodes) are pairwise different.  This is the
+    region in which `nexus_roundtrip_translate_partial` holds: outside it (two inner nodes with the same
+    name) the unchanged code fails — open finding F60, `NexusTranslateDuplicateNodeNames`. -/
+def innerNamesDistinct (t : T) : Bool := !hasDup ((allNames t).filter (· != ""))
+
+/-- a name that is not a tip name of the tree is not a decimal numeral (it would be taken for a key of
+    the translate table) -/
+def nonTipNamesNotNumeral (t : T) : Bool :=
   (allNames t).all fun y => y == "" || t.tipNames.contains y || !isNumeral y
+
+def namesOK (t : T) : Bool := innerNamesDistinct t && nonTipNamesNotNumeral t
+
+/-- classifier of the open finding F60 (`NexusTranslateDuplicateNodeNames`), as narrow as the finding:
+    a translate table is asked for, the trees are otherwise inside the theorem's region (legal and
+    distinct tips, one tip set, non-numeral inner names), some tree repeats a non-empty node name, and
+    the wrong observation is the reader's single error record for the whole document -/
+def isF60 (translate : Bool) (ts : List T) (recs : List Rec) : Bool :=
+  translate && ts.all tipsOK && sameTaxa ts && ts.all nonTipNamesNotNumeral &&
+  ts.any (fun t => !innerNamesDistinct t) &&
+  (match recs with
+   | [r] => r.id == 0 && !r.out.isOk
+   | _ => false)
 
 /- ## PhyloXML: the trees the format holds faithfully, and the law of the number codec -/
 
